@@ -103,6 +103,17 @@ def harness_dir():
     return d
 
 
+def _bin_features(bin):
+    """features named by `required-features` of the [[bin]] entry of `bin` in Cargo.toml.in (binaries
+    without an entry are auto-discovered and need none)"""
+    txt = open(os.path.join(ROOT, "harness", "Cargo.toml.in")).read()
+    for blk in re.findall(r"\[\[bin\]\](.*?)(?=\n\[|\Z)", txt, flags=re.S):
+        if re.search(r'name\s*=\s*"%s"' % re.escape(bin), blk):
+            m = re.search(r"required-features\s*=\s*\[(.*?)\]", blk, flags=re.S)
+            return re.findall(r'"([^"]+)"', m.group(1)) if m else []
+    return []
+
+
 def build_harness(bin, profile="debug"):
     """(Re)build harness binary `bin` against REPO's current working tree (cargo is incremental over
     the path dependencies, so an edited source file is always recompiled)."""
@@ -123,6 +134,9 @@ def build_harness(bin, profile="debug"):
         env = {"CARGO_TARGET_DIR": target, "CARGO_NET_OFFLINE": "true", "VERIF_REPO": REPO,
                "RUSTFLAGS": "--cfg %s -Awarnings" % GUARD_CFG}
         cmd = ["cargo", "build", "--offline", "-q", "--bin", bin] + (["--release"] if profile == "release" else [])
+        feats = _bin_features(bin)
+        if feats:
+            cmd += ["--features", ",".join(feats)]
         t = time.time()
         rc, out = sh(cmd, cwd=hdir, env=env, timeout=3000)
         if rc != 0 and "Cargo.lock" in out:
